@@ -66,6 +66,25 @@ def scenarios(ctx):
         steps += [{"op": "serve", "mut": "none"} for _ in range(2)]
         out.append({"id": "zero-%d" % i, "cfg": {"subject": subject, "table": i}, "steps": steps})
     out += R.add_family(rng, quick, serve=True)
+    # the rebalancer at work: meters that are always ready and rate their servers differently at every request, one-second
+    # back-off, the clock moving between requests - weights are adjusted and converge back all the time while servers are
+    # drained (weight 0), re-weighted, removed and re-added through the rebalancer
+    for i in range(40 if quick else 400):
+        keys = R.KEYS[:rng.randint(2, 4)]
+        steps = [{"op": "upsert", "k": k, "v": 0, "w": rng.choice([1, 2, 3])} for k in keys]
+        for _ in range(60 if quick else 150):
+            x = rng.random()
+            if x < 0.6:
+                steps.append({"op": "serve", "mut": "none"})
+                if rng.random() < 0.7:
+                    steps.append({"op": "adv", "d": rng.choice([1, 2, 2, 11])})
+            elif x < 0.8:
+                steps.append({"op": "upsert", "k": rng.choice(keys), "v": 0, "w": rng.choice([0, 0, 1, 2, 4])})
+            elif x < 0.9:
+                steps.append({"op": "remove", "k": rng.choice(keys), "v": 0})
+            else:
+                steps.append({"op": "upsert", "k": rng.choice(R.KEYS[:5]), "v": 0, "w": rng.choice([1, 3])})
+        out.append({"id": "adj-%d" % i, "cfg": {"subject": "rba", "table": i}, "steps": steps})
     return out
 
 
